@@ -277,7 +277,7 @@ pub fn run(prop: &str, tier: &str, replay: Option<&str>) -> i32 {
     // (a2) key algorithms on either side, names of <= 1 attribute
     {
         let mut loadable: Vec<(&ZooKey, Alg)> = Vec::new();
-        for z in zoo.iter().filter(|z| z.format == KeyFormat::Pkcs8 && backend_supports(z.kind, z.format) && z.name.contains("_1") && (thorough || !matches!(z.kind, KeyKind::Rsa3072 | KeyKind::Rsa4096))) {
+        for z in zoo.iter().filter(|z| z.format == KeyFormat::Pkcs8 && backend_supports(z.kind, z.format) && z.name.contains("_1") && (thorough || !z.kind.is_slow())) {
             if z.kind.is_rsa() {
                 for a in [Alg::RsaSha256, Alg::RsaSha384, Alg::RsaSha512] {
                     loadable.push((z, a));
